@@ -719,6 +719,37 @@ func c02Conc(c *Ctx) {
 			}
 			c.Count("conc_quiescent_membership_checks", 1)
 		}
+		// administration calls racing with each other: several callers add the same, not yet known server at once; it is
+		// then one member: one removal takes it out, a second removal fails, and it is no longer listed
+		for round := 0; round < 12; round++ {
+			nu := mustURL(sfmt("http://racing-add-%d.test/p", round))
+			startAdd := make(chan struct{})
+			var awg sync.WaitGroup
+			for g := 0; g < 6; g++ {
+				awg.Add(1)
+				go func() {
+					defer awg.Done()
+					<-startAdd
+					_ = t.upsert(nu, roundrobin.Weight(1))
+				}()
+			}
+			close(startAdd)
+			awg.Wait()
+			c.Count("conc_racing_adds", 1)
+			if err := t.remove(nu); err != nil {
+				c.Violation("conc/racing-add-not-added", sfmt("%s: server added by 6 concurrent UpsertServer calls cannot be removed: %v", kind, err), nil)
+				return
+			}
+			err2 := t.remove(nu)
+			listed := false
+			for _, k := range keysOf(t.servers()) {
+				listed = listed || k == urlKey(nu)
+			}
+			if err2 == nil || listed {
+				c.Violation("conc/racing-add-duplicated", sfmt("%s: a server added by 6 concurrent UpsertServer calls and then removed once is still a member (second RemoveServer error: %v, still listed: %v)", kind, err2, listed), nil)
+				return
+			}
+		}
 		for k, from := range open {
 			ivs[k] = append(ivs[k], iv{from, end})
 		}
